@@ -34,4 +34,10 @@ def Heap.alloc (h : Heap) (a : Addr) : Option Heap :=
            prev := fun x => if x = a then 0 else h.prev x }
   else none
 
+/-- what the loops of `jwks.c` read of an item (`item->error`, `item->kid`) -/
+structure ItemView where
+  error : Bool
+  kid : Option (List UInt8)
+  deriving Repr, Inhabited, DecidableEq
+
 end Jwt.Ll
